@@ -102,7 +102,7 @@ def build_vc(name, st, goal, extra_hyps=(), extra_index=(), rounds=3, meta=None,
         for _ in range(rounds):
             pool = collect_terms(base_terms + [goal] + hyps[::-1], [z3.IntSort(), core.Key, core.Ref, core.StrS])
             # small integer constants are always candidates
-            pool[z3.IntSort().name()] = pool[z3.IntSort().name()] + [z3.IntVal(0)]
+            pool[z3.IntSort().name()] = pool[z3.IntSort().name()] + [z3.IntVal(0)] + [t for t in base_terms if z3.is_int_value(t) and t.as_long() != 0]
             # keys built from string / int terms (quantified facts over Key instantiated at KStr(s), KInt(i))
             kn = core.Key.name()
             have = {t.get_id() for t in pool.get(kn, [])}
